@@ -17,7 +17,7 @@ from ..engine import R, Sub
 
 PROPERTY = 'C01'
 ASSUMPTIONS = [
-    'segments are drawn from the menu k,1,s,0,zz,7,-1,-2," 1","" (no wildcard segments; those are C14)',
+    'segments are drawn from the menu k,1,s,0,zz,7,-1,-2," 1","","k.k" (a dotted segment only inside Path(...); no wildcard segments; those are C14)',
     'targets: dict, dict with int and digit-string keys, OrderedDict, list, tuple, attribute object; '
     'leaves None, 0, "v", {}, [], (), object without attributes',
     'reading of the access rule: mapping -> cur[seg]; list/tuple -> cur[int(seg)]; otherwise getattr',
@@ -25,7 +25,7 @@ ASSUMPTIONS = [
 
 KINDS = ['dict', 'dictn', 'odict', 'list', 'tuple', 'obj']
 LEAVES = ['none', 'zero', 'str', 'edict', 'elist', 'etuple', 'eobj']
-MENU = ['k', '1', 's', '0', 'zz', '7', '-1', '-2', ' 1', '']
+MENU = ['k', '1', 's', '0', 'zz', '7', '-1', '-2', ' 1', '', 'k.k']
 VALID = {'dict': 'k', 'dictn': '1', 'odict': 'k', 'list': '1', 'tuple': '1', 'obj': 'k'}
 INTLIKE = re.compile(r'^-?\d+$')
 
